@@ -62,6 +62,7 @@ type G struct {
 	done     bool
 	depth    int
 	crash    *goPanic
+	selDone  map[*ssa.Select]map[int]bool
 }
 
 type inputRec struct {
@@ -1588,7 +1589,7 @@ func (ex *Exec) indexBytes(b []*Term, idx *Term, what string) *Term {
 	if !ex.branch(ok) {
 		ex.rtPanic("index out of range", fmt.Sprintf("%s [symbolic] with length %d", what, len(b)))
 	}
-	if len(b) > 64 {
+	if len(b) > 256 {
 		return b[int(ex.concretize(idx, 1100, "index"))]
 	}
 	r := b[len(b)-1]
@@ -2257,6 +2258,37 @@ func (ex *Exec) selectInstr(fr *Frame, i *ssa.Select) Value {
 		ex.blockUntil(func() bool { return len(ready()) > 0 })
 		rd = ready()
 	}
+	// Fairness: a receive from a closed, drained channel is ready forever. The Go runtime picks among
+	// ready cases at random, so every ready case is eventually taken; the executor explores each
+	// order in which such cases can be taken once, instead of unboundedly many repetitions: a closed
+	// case chosen at this select is not offered again until a case that is not closed-and-drained
+	// has been chosen there.
+	isClosedRecv := func(k int) bool {
+		s := states[k]
+		return s.dir == types.RecvOnly && s.ch != nil && s.ch.closed && len(s.ch.buf) == 0 && len(s.ch.sendq) == 0
+	}
+	g := ex.cur
+	if g.selDone == nil {
+		g.selDone = map[*ssa.Select]map[int]bool{}
+	}
+	if len(rd) > 1 {
+		// closed-and-drained cases are offered in case order, one at a time (their relative order is
+		// assumed not to matter: such a receive yields the zero value and ok == false)
+		var filtered []int
+		closedOffered := false
+		for _, k := range rd {
+			if isClosedRecv(k) {
+				if g.selDone[i][k] || closedOffered {
+					continue
+				}
+				closedOffered = true
+			}
+			filtered = append(filtered, k)
+		}
+		if len(filtered) > 0 {
+			rd = filtered
+		}
+	}
 	idx := -1
 	if len(rd) == 1 {
 		idx = rd[0]
@@ -2266,6 +2298,16 @@ func (ex *Exec) selectInstr(fr *Frame, i *ssa.Select) Value {
 			vals[k] = int64(r)
 		}
 		idx = int(ex.decideVals(vals))
+	}
+	if idx >= 0 {
+		if isClosedRecv(idx) {
+			if g.selDone[i] == nil {
+				g.selDone[i] = map[int]bool{}
+			}
+			g.selDone[i][idx] = true
+		} else {
+			delete(g.selDone, i)
+		}
 	}
 	res := TupleV{ex.cint(int64(idx)), ex.ts.ff}
 	var recvVals []Value
